@@ -84,6 +84,11 @@ impl NaiveDate {
     pub fn month(&self) -> (r: u32) ensures r as int == month_of(self.d()) { unimplemented!() }
     #[verifier::external_body]
     pub fn day(&self) -> (r: u32) ensures r as int == day_of(self.d()) { unimplemented!() }
+    /// ISO week-numbering year (differs from year() around New Year): uninterpreted
+    #[verifier::external_body]
+    pub fn iso_week(&self) -> (r: IsoWeek) ensures r.y() == iso_year_of(self.d()) { unimplemented!() }
+    #[verifier::external_body]
+    pub fn ordinal(&self) -> (r: u32) ensures 1 <= r <= 366 { unimplemented!() }
     #[verifier::external_body]
     pub fn from_ymd_opt(y: i32, m: u32, dd: u32) -> (r: Option<NaiveDate>)
         ensures match r {
@@ -97,6 +102,14 @@ impl NaiveDate {
     { unimplemented!() }
     #[verifier::external_body]
     pub fn to_string(&self) -> String { unimplemented!() }
+}
+pub uninterp spec fn iso_year_of(d: int) -> int;
+#[verifier::external_body]
+pub struct IsoWeek { _p: u8 }
+impl IsoWeek {
+    pub uninterp spec fn y(&self) -> int;
+    #[verifier::external_body]
+    pub fn year(&self) -> (r: i32) ensures r as int == self.y() { unimplemented!() }
 }
 pub mod chrono {
     use super::*;
